@@ -90,6 +90,108 @@ def _tc_mutate(t: PusTc, old, new, path: str):
             setattr(t.pus_tc_sec_header, attr, new[key])
 
 
+def _pus_packet_problem(raw_hex: str) -> Optional[str]:
+    """None when the octets are one complete PUS packet: declared length = number of octets, checksum matches"""
+    raw = unhx(raw_hex)
+    if len(raw) < 8 or len(raw) != ((raw[4] << 8) | raw[5]) + 7:
+        return f"the octets {raw_hex[:120]} are not one space packet (length field vs. number of octets)"
+    if not check_pus_crc(raw):
+        return f"the octets {raw_hex[:120]} do not end in the CRC-16 of the octets before (check_pus_crc is False)"
+    return None
+
+
+def _sp_view_observe(sp):
+    return {"raw": hx(bytes(sp.pack())), "apid": int(sp.apid), "count": int(sp.seq_count), "shf": bool(sp.sec_header_flag)}
+
+
+# things taken from a telecommand BEFORE it is changed and looked at AFTER (core.held_across_change): the generic space
+# packet is a packet of its own - the octets it packs to are the telecommand as it was when the view was taken
+TC_HOLDERS = [("PusTc.to_space_packet()", lambda t: t.to_space_packet(), _sp_view_observe, lambda v: _pus_packet_problem(v["raw"]))]
+
+TC_TOP = {"apid": 2047, "count": 16383, "source_id": 65535, "service": 255, "subservice": 255, "ack": 15}
+
+
+def _other_octets(h: str, how: str) -> str:
+    """octets that differ from the hex string h: 'bit' the lowest bit of the last octet (one octet 00 for the empty string),
+    'longer' one octet more, 'far' other content of another length"""
+    b = unhx(h)
+    if how == "bit":
+        return hx(b[:-1] + bytes([b[-1] ^ 1])) if b else "00"
+    if how == "longer":
+        return hx(b + b"\x00")
+    return hx(bytes(x ^ 0xFF for x in reversed(b)) + b"\x55")
+
+
+def _tc_equality(a, full: bool, raw: Optional[bytes] = None) -> None:
+    """`==` between telecommands holding the values of `a`, in every state an application can hold them (see
+    core.equal_in_every_state); full=False: only the decoded / never-packed pair in both orders"""
+    def make():
+        return _tc(a)
+    raw = bytes(make().pack()) if raw is None else bytes(raw)
+
+    def prepared(*steps):
+        def build():
+            t = make()
+            for st in steps:
+                st(t)
+            return t
+        return build
+
+    def reached(old, path, how="new"):
+        def build():
+            t = _tc(old)
+            t = PusTc.unpack(bytes(t.pack()) + b"\x00") if how == "unpack" else t
+            t.pack()                       # whatever the object remembers is now about the OLD values
+            _tc_mutate(t, old, a, path)
+            return t
+        return build
+
+    same = [("PusTc(<the same arguments>), nothing called on it", make)]
+    different = []
+    if full:
+        same += [("PusTc(<the same arguments>); o.pack()", prepared(lambda t: t.pack())),
+                 ("PusTc(<the same arguments>); o.calc_crc()", prepared(lambda t: t.calc_crc())),
+                 ("PusTc(<the same arguments>); o.to_space_packet()", prepared(lambda t: t.to_space_packet())),
+                 ("PusTc(<the same arguments>); o.pack(recalc_crc=False)", prepared(lambda t: t.pack(recalc_crc=False))),
+                 ("PusTc.unpack(<the same octets>)", lambda: PusTc.unpack(raw)),
+                 ("PusTc.unpack(<the same octets>); o.pack()", lambda: _packed(PusTc.unpack(raw))),
+                 ("PusTc.unpack(bytearray(<the same octets>))", lambda: PusTc.unpack(bytearray(raw)))]
+        far = dict(a)
+        for key in TC_SETTABLE:
+            far[key] = _other_octets(a[key], "far") if key == "data" else a[key] ^ TC_TOP[key]
+            old = dict(a)
+            old[key] = far[key]
+            for path in ("tc", "hdr"):
+                same.append((f"PusTc(<{key} = {str(old[key])[:40]}, else the same>); o.pack(); {key} set to the final value through "
+                             f"{'the setters of PusTc' if path == 'tc' else 'the attributes of o.sp_header / o.pus_tc_sec_header'}",
+                             reached(old, path)))
+            for how, name in (("bit", key + " (one bit)"), ("longer", "data (one octet longer)")):
+                if how == "longer" and key != "data":
+                    continue
+                diff = dict(a)
+                diff[key] = _other_octets(a[key], how) if key == "data" else a[key] ^ 1
+                different.append((f"PusTc(<{name} differs: {str(diff[key])[:40]}, else the same>), nothing called on it",
+                                  lambda d=diff: _tc(d)))
+                different.append((f"PusTc(<{name} differs: {str(diff[key])[:40]}, else the same>); o.pack()",
+                                  lambda d=diff: _packed(_tc(d))))
+        same += [("PusTc(<every field different>); o.pack(); every field set to the final value through the setters of PusTc",
+                  reached(far, "tc")),
+                 ("PusTc.unpack(<octets of a telecommand with every field different>); o.pack(); every field set to the final "
+                  "value through the header attributes", reached(far, "hdr", "unpack")),
+                 ("PusTc(<every field different>); o.pack(); o.app_data = final data; o.sp_header, o.pus_tc_sec_header = new "
+                  "header objects with the final values", reached(far, "replace"))]
+    err = core.equal_in_every_state(lambda: PusTc.unpack(raw), make, same, different,
+                                    what="PusTc(" + ", ".join(f"{k}={str(a[k])[:60]}" for k in TC_SETTABLE) + ")",
+                                    decoded="PusTc.unpack(" + hx(raw)[:120] + ")", both_sides=full)
+    if err:
+        raise SelfCheckFailure(err)
+
+
+def _packed(t):
+    t.pack()
+    return t
+
+
 def _tc_after_history(a):
     """the telecommand of the case's parameters, reached the long way: built (or decoded) with other values, looked at,
     changed to the case's values through the setters; what it shows then is what a telecommand built directly with the
@@ -101,7 +203,19 @@ def _tc_after_history(a):
         t = _tc(old)
         return PusTc.unpack(bytes(t.pack()) + b"\x00") if h.get("how") == "unpack" else t
     got = {}
-    err = core.read_mutate_read(make, _tc_views(a), lambda t: _tc_mutate(t, old, a, h.get("path", "tc")), lambda: _tc(a),
+
+    def change(t):
+        _tc_mutate(t, old, a, h.get("path", "tc"))
+
+    def mutate(t):
+        # "hold": views / conversions taken BEFORE the change are looked at again AFTER it
+        if h.get("hold"):
+            bad = core.held_across_change(t, TC_HOLDERS, change, "PusTc")
+            if bad:
+                raise SelfCheckFailure(bad)
+        else:
+            change(t)
+    err = core.read_mutate_read(make, _tc_views(a), mutate, lambda: _tc(a),
                                 "PusTc", first=h.get("read"), after=h.get("after"), out=got)
     if err:
         raise SelfCheckFailure(err)
@@ -113,14 +227,14 @@ def op_tc_pack(a):
         # the octets the changed telecommand showed (in the order of the case) are what the model is asked about
         t, seen = _tc_after_history(a)
         if not all("ok" in seen.get(v, {}) for v in ("pack", "to_space_packet", "packet_len")):
-            return _tc_pack_checks(t)
+            return _tc_pack_checks(t, a)
         raw, sp = seen["pack"]["ok"]["raw"], seen["to_space_packet"]["ok"]["raw"]
         return {"raw": raw, "sp_raw": sp, "packet_len": seen["packet_len"]["ok"],
                 "crc_ok": bool(check_pus_crc(unhx(raw))) and bool(check_pus_crc(unhx(sp)))}
-    return _tc_pack_checks(_tc(a))
+    return _tc_pack_checks(_tc(a), a)
 
 
-def _tc_pack_checks(t: PusTc):
+def _tc_pack_checks(t: PusTc, a):
     # (packs twice, the caller modifying the first returned buffer in between)
     raw = core.pack_stable(t, "PusTc.pack()")
     if len(raw) != t.packet_len:
@@ -130,9 +244,13 @@ def _tc_pack_checks(t: PusTc):
         raise SelfCheckFailure("unpack(pack(tc)) != tc under ==")
     if core.ISOLATION.check("PusTc", t2, _tc_fields) != _tc_fields(t):
         raise SelfCheckFailure("unpack(pack(tc)) has different field values")
+    _tc_undisturbed(t2, a, raw)
     if core.pack_stable(t2, "PusTc.pack() of a decoded telecommand") != raw:
         raise SelfCheckFailure("re-packing the decoded telecommand does not reproduce the octets")
     sp = core.pack_stable(t.to_space_packet(), "PusTc.to_space_packet().pack()")
+    # "equal to the original": also to an original that was never packed itself, in both orders (case key "eq": in every
+    # state an application can hold the original in, and unequal to telecommands that differ in one field)
+    _tc_equality(a, bool(a.get("eq")), raw)
     return {"raw": hx(raw), "sp_raw": hx(sp), "packet_len": int(t.packet_len), "crc_ok": bool(check_pus_crc(raw))}
 
 
@@ -145,9 +263,43 @@ def op_tc_unpack(a):
         raise SelfCheckFailure("crc16 of the decoded packet is not the packet's own trailer")
     # telecommands decoded by earlier calls must still show what they showed then
     f = core.ISOLATION.check("PusTc", t, _tc_fields)
+    _tc_equals_rebuilt(t, f, raw[:n])
     if core.pack_stable(t, "PusTc.pack() of a decoded telecommand") != raw[:n]:
         raise SelfCheckFailure("pack(unpack(b)) != b[:packet_len]")
     return f
+
+
+def _tc_undisturbed(t2: PusTc, a, raw: bytes) -> None:
+    """(the isolation clause in a form that needs no earlier case) the telecommand decoded from `raw` shows the same fields
+    after the octets of ANOTHER telecommand - every field different - have been decoded as well"""
+    f = _tc_fields(t2)
+    b = {"service": a["service"] ^ 0xFF, "subservice": a["subservice"] ^ 0xFF, "apid": a["apid"] ^ 0x7FF, "count": a["count"] ^ 0x3FFF,
+         "source_id": a["source_id"] ^ 0xFFFF, "ack": a["ack"] ^ 0xF, "data": hx(bytes(x ^ 0xFF for x in unhx(a["data"])[:40]) + b"\x5a")}
+    other = with_crc(spec_tc(b))
+    PusTc.unpack(other)
+    now = _tc_fields(t2)
+    if now != f:
+        raise SelfCheckFailure(f"d = PusTc.unpack({hx(raw)[:120]}) showed {core._short(f)}; after PusTc.unpack({hx(other)[:120]}) - the "
+                               f"octets of another telecommand - d shows {core._short(now)}: an object decoded earlier changed when "
+                               f"another input was decoded")
+
+
+def _tc_equals_rebuilt(t: PusTc, f, raw: bytes) -> None:
+    """the decoded telecommand (nothing called on it yet) and a telecommand built from the decoded field values on which
+    nothing was ever computed are equal, in both orders - whenever the constructor can express the decoded packet at all
+    (it always builds type TC / secondary header present / unsegmented / version 0)"""
+    try:
+        o = PusTc(service=f["service"], subservice=f["subservice"], apid=f["sph"]["apid"], app_data=unhx(f["data"]),
+                  seq_count=f["sph"]["count"], source_id=f["source_id"], ack_flags=f["ack"])
+    except ValueError:
+        return
+    if _tc_fields(o) != f:
+        return
+    got = core._eq_outcomes(t, o)
+    if got != [True, True, False, False]:
+        raise SelfCheckFailure(f"d = PusTc.unpack({hx(raw)[:120]}); o = PusTc(<the field values d shows: {core._short(f)}>), nothing "
+                               f"called on o: [d == o, o == d, d != o, o != d] is {got} - the decoded telecommand is not equal to "
+                               f"a telecommand with identical fields that was never packed itself")
 
 
 def op_pus_crc_check(a):
@@ -414,8 +566,18 @@ class C02(Prop):
                             first = firsts[k % len(firsts)]
                             rest = [v for v in TC_VIEW_NAMES if v != first]
                             rng.shuffle(rest)
+                            # "hold": the generic space-packet view taken BEFORE the change is looked at AFTER it
                             yield Case({"op": "tc_pack", **a, "hist": {"from": old, "how": how, "path": path, "read": rd,
-                                                                       "after": [first] + rest}}, "valid", tag="read-set-read")
+                                                                       "after": [first] + rest, "hold": bool((k // 4 + rep) % 2)}},
+                                       "valid", tag="read-set-read")
+        # "equal to the original" whatever state the original is in (key "eq"): never packed, packed, checksum calculated,
+        # values reached through the setters after a pack(), decoded twice ...; unequal when one field differs
+        for i in range(600 if thorough else 60):
+            a = rand_args(rng, rng.choice([0, 1, 2, 5, 17]) if i % 8 else None)
+            if i % 3 == 0:
+                a.update(apid=rng.choice(pool(2047, rng, 0)), count=rng.choice(pool(16383, rng, 0)),
+                         source_id=rng.choice(pool(65535, rng, 0)))
+            yield Case({"op": "tc_pack", **a, "eq": True}, "valid", tag="equality-states")
         # random octet strings
         for _ in range(20000 if thorough else 3000):
             ln = rng.randint(0, 40)
